@@ -43,7 +43,7 @@ var profiles = map[string]Profile{
 		Faults: map[string]int{"isolate-leader": 3, "stall": 2, "break": 2, "restart": 2, "crash": 2, "transfer": 3, "snapshot": 3, "selfdemote": 1, "heal": 2}},
 	"member": {MinNodes: 1, MaxNodes: 4, Steps: 16, Clients: 3, MaxIDs: 6, DelayProb: 0.05,
 		Ops:    map[string]int{"update": 6, "read": 1, "barrier": 1},
-		Faults: map[string]int{"member": 10, "isolate-leader": 3, "isolate-any": 2, "transfer": 3, "crash": 2, "restart": 1, "stall": 2, "snapshot": 1, "heal": 2, "tnow": 3, "selfdemote": 2, "selfremove": 1, "shrink": 2}},
+		Faults: map[string]int{"member": 10, "isolate-leader": 3, "isolate-any": 2, "transfer": 3, "crash": 2, "restart": 1, "stall": 2, "snapshot": 1, "heal": 2, "tnow": 5, "selfdemote": 2, "selfremove": 1, "shrink": 2}},
 	"snapshot": {MinNodes: 3, MaxNodes: 4, Steps: 14, Clients: 5, MaxIDs: 5, DelayProb: 0.05,
 		Ops:    map[string]int{"update": 10, "read": 1, "dirty": 1},
 		Faults: map[string]int{"snapshot": 8, "slow-snapshot": 4, "isolate-any": 4, "stall": 2, "restart": 3, "crash": 2, "member": 2, "transfer": 1, "heal": 3}},
